@@ -231,6 +231,7 @@ pub fn run(ctx: &Ctx) -> (Summary, String) {
     crate::merge(&mut s, t);
     if !announced {
         s.requests.extend(model_writer_requests(ctx));
+        s.requests.extend(policy_requests());
     }
     (s, extra)
 }
@@ -358,4 +359,54 @@ pub fn check(dir: &str, ctx: &Ctx) -> bool {
         }
     }
     ok
+}
+
+
+/// the add-policy dispatch is part of the stored format (which positions enter the hash chains decides every hop
+/// count): what `DictionaryAddPolicy::update_hash` passes on, for every policy, at every position around the
+/// 4 KiB and 32 KiB rules and around the limit, against the model's `updateCalls` (proved to be what the
+/// model's `policyUpdate` performs: `policyUpdate_eq_calls`)
+pub fn policy_requests() -> Vec<(String, String)> {
+    let mut out = Vec::new();
+    let mut positions: Vec<u32> = (0..6).collect();
+    for k in 1..4u32 {
+        positions.extend(k * 4096 - 8..k * 4096 + 4);
+    }
+    for k in 1..3u32 {
+        positions.extend(k * 32768 - 0x106 - 262..k * 32768 - 0x106 + 4);
+        positions.extend(k * 32768 - 4..k * 32768 + 4);
+    }
+    let lens_base: [u32; 9] = [1, 2, 3, 4, 5, 6, 256, 257, 258];
+    for (pol, limits) in [(0u32, vec![0u32]), (1, vec![0, 1, 3, 4, 16, 255]), (2, vec![0, 1, 3, 4, 16, 255]), (3, vec![0]), (4, vec![0])] {
+        for lim in limits {
+            let mut lens: Vec<u32> = lens_base.to_vec();
+            if lim > 1 {
+                lens.extend([lim - 1, lim, lim + 1]);
+            }
+            if pol == 4 {
+                lens.extend(7..40);
+                lens.extend([100, 200, 250, 255]);
+            }
+            lens.sort();
+            lens.dedup();
+            for &pos in &positions {
+                // the 32 KiB rule depends on pos + len crossing the boundary: every position matters there;
+                // for the other policies a thinner set of positions is enough
+                if pol != 4 && pol != 3 && !(pos < 6 || pos % 4096 >= 4090 || pos % 4096 < 3) {
+                    continue;
+                }
+                for &len in &lens {
+                    if len == 0 {
+                        continue;
+                    }
+                    let resp = match vh::add_policy_update_calls(pol, lim, pos, len) {
+                        Ok(calls) => format!("calls {}", calls.iter().map(|(p, l)| format!("{p}:{l}")).collect::<Vec<_>>().join(",")),
+                        Err(e) => format!("err {e}"),
+                    };
+                    out.push((format!("policy {pol} {lim} {pos} {len}"), resp));
+                }
+            }
+        }
+    }
+    out
 }
